@@ -133,9 +133,11 @@ package analysis
 //@   loop 2
 //@     invariant [state] resOk(res)
 //@     invariant [only-grows] len(res.Diagnostics) >= old(len(res.Diagnostics))
+//@     assert [argument-variable-visited] {C16,C19} typeis(arg, *parser.Variable) ==> !has(res.unusedVars, as(arg, *parser.Variable).Name) && (has(res.declaredVars, as(arg, *parser.Variable).Name) ==> has(res.varResolution, as(arg, *parser.Variable)))
 //@   loop 3
 //@     invariant [state] resOk(res)
 //@     invariant [only-grows] len(res.Diagnostics) >= old(len(res.Diagnostics))
+//@     assert [argument-variable-visited] {C16,C19} typeis(arg, *parser.Variable) ==> !has(res.unusedVars, as(arg, *parser.Variable).Name) && (has(res.declaredVars, as(arg, *parser.Variable).Name) ==> has(res.varResolution, as(arg, *parser.Variable)))
 
 //@ func (*CheckResult).checkVarType
 //@   requires [state] resOk(res)
@@ -292,10 +294,16 @@ package analysis
 // not verified against a recursive definition; the CLI contracts only need that the same number is used)
 //@ function errorsOf Int
 // (not under the panic sweep: it needs "every diagnostic has a kind", which is not carried as an invariant)
+// the severity of a diagnostic is a function of its kind (each Severity method returns a constant): calls through the
+// interface are not followed, and specifications may name d.Kind.Severity()
+//@ externpure /internal/analysis.DiagnosticKind
 //@ func (CheckResult).GetErrorsCount
 //@   nosafety
 //@   assumes [is-the-count] {C20} result == errorsOf(r.Diagnostics)
+//@   ensures [zero-iff-no-error] {C20} result >= 0 && (result == 0) == forall(i, 0, len(r.Diagnostics), r.Diagnostics[i].Kind.Severity() != ErrorSeverity)
 //@   modifies nothing
+//@   loop 1
+//@     invariant [zero-iff-none-so-far] {C20} c >= 0 && (c == 0) == forall(j, 0, iter, r.Diagnostics[j].Kind.Severity() != ErrorSeverity)
 
 // ---------------------------------------------------------------- the same text gives the same diagnostics (C18):
 // the message of a diagnostic is a function of its fields - in particular it never depends on the order in which a map
